@@ -118,3 +118,42 @@ Proof.
     rewrite <- rev_length in H2. destruct (rev pdf) as [|a [|b l]]; cbn [length] in H2; try lia. eauto. }
   rewrite Hs. cbn [rbind]. destruct s as [[sf mn] mx]. eauto.
 Qed.
+
+(* ---------- pvalue and score are total on a built distribution ---------- *)
+
+Lemma bs_loop_ok : forall (sf : list Q) p fuel base size,
+  (1 <= size)%nat -> (base + size <= length sf)%nat -> (size <= fuel + 1)%nat ->
+  exists b, bs_loop QOps sf p fuel base size = Ok b /\ (b < length sf)%nat.
+Proof.
+  intros sf p. induction fuel as [|f IH]; intros base size H1 Hb Hf.
+  - assert (size = 1)%nat by lia. subst. cbn [bs_loop Nat.leb]. exists base. split; [reflexivity|lia].
+  - cbn [bs_loop]. destruct (size <=? 1)%nat eqn:E.
+    + exists base. split; [reflexivity|lia].
+    + apply Nat.leb_gt in E.
+      assert (1 <= size / 2)%nat as Hhalf by (apply Nat.div_le_lower_bound; lia).
+      assert (size / 2 < size)%nat as Hlt by (apply Nat.div_lt; lia).
+      destruct (nth_error sf (base + size / 2)) as [x|] eqn:En.
+      * cbn [n_cmp QOps]. destruct (p ?= x); apply IH; lia.
+      * apply nth_error_None in En. lia.
+Qed.
+
+Lemma bsearch_ok : forall (sf : list Q) p, exists x, bsearch QOps sf p = Ok x.
+Proof.
+  intros sf p. unfold bsearch. destruct sf as [|y l] eqn:E; [eauto|]. rewrite <- E.
+  assert (1 <= length sf)%nat as Hl by (rewrite E; cbn; lia).
+  destruct (bs_loop_ok sf p (length sf) 0 (length sf) Hl ltac:(lia) ltac:(lia)) as (b & Hb & Hlt).
+  rewrite Hb. cbn [rbind]. destruct (nth_error sf b) as [v|] eqn:En.
+  - cbn [n_cmp QOps]. destruct (p ?= v); eauto.
+  - apply nth_error_None in En. lia.
+Qed.
+
+Theorem methods_Q_total : forall (d : dist Q) s p, d_sf d <> [] ->
+  (exists q, d_pvalue QOps d s = Ok q) /\ (exists sc, d_score QOps d p = Ok sc).
+Proof.
+  intros d s p Hne. split.
+  - unfold d_pvalue, d_scale. cbn [rbind]. destruct (d_sf d) as [|x l] eqn:E; [contradiction|].
+    destruct (_ <? d_min d)%Z; [eauto|]. destruct (_ <=? _)%Z; eauto.
+  - unfold d_score, d_unscale. destruct (ge_n QOps p (n_one QOps)); [eauto|].
+    destruct (le_n QOps p (n_zero QOps)); [eauto|].
+    destruct (bsearch_ok (d_sf d) p) as [x Hx]. rewrite Hx. cbn [rbind]. eauto.
+Qed.
